@@ -35,6 +35,9 @@ def unit(root='/repo'):
     fns['create_whiteout'].splices = [('^', 'after', 'proof { assert((0o020000u32 | 0o777u32) & 0o170000u32 == 0o020000u32) by (bit_vector); }')]
     # is_opaque: the local closure `check_attr` becomes a method (R26); it captures `self` and `ctx` immutably
     fns['is_opaque'].body_hooks = [R.r26_parent_hook('check_attr', 'self.check_attr(ctx, ')]
+    NAMES = ('^', 'after', 'proof { lemma_str_consts(); }')      # the bytes of the crate's name constants (R11); the specification has its own (pinned) names
+    fns['is_opaque'].splices = list(fns['is_opaque'].splices) + [NAMES]
+    fns['set_opaque'].splices = list(fns['set_opaque'].splices) + [NAMES]
     check_attr = Fn(LAYER, T, 'check_attr', props=['C10'], sig_subst=C.LAYER_SIG,
                     body_resub=[(r'CString::new\(attr_name\)\?', 'cstring_new_io(attr_name)?', 'CString::new + `?` (NulError -> io::Error by From) as one model call')],
                     ensures=['r is Ok ==> (r->Ok_0 <==> sp_xattr_opaque(self.s_getxattr(*ctx, inode, str_bytes(attr_name@), attr_size))) // [C10.layer.is_opaque.value] an xattr marks a directory opaque iff its value is "y" (one byte)'])
